@@ -286,7 +286,9 @@ def check_rules_key(world, metric, configured):
 
 RULE_NAMES = ['a.b', 'a.cpu', 'sys.cpu.0', 'sys.mem', 'web.1.req', 'web.2.req', 'db.x', 'zzz', 'a', 'prod.app.w1.req',
               'prod.app.w2.req', 'prod.app.w1.lat', 'dev.app.w1.req', 'prod.app.all.req', 'x.y.z.w', 'prod..req',
-              'prod.app.w1.req.extra', 'xprod.app.w1.req', 'prod.app.w1.reqs']
+              'prod.app.w1.req.extra', 'xprod.app.w1.req', 'prod.app.w1.reqs',
+              # one segment too many exactly where a <field> or * sits
+              'prod.eu.app.w1.req', 'prod.app.w1.x.req', 'sys.cpu.x.0', 'web.1.2.req', 'x.q.r.s', 'sys.a.b']
 
 
 def check_rules_sweep(world, configured):
